@@ -63,6 +63,7 @@ def cow_chk(name):
 
 U8, U16, U32, U64 = prim_u(8, "u8"), prim_u(16, "u16"), prim_u(32, "u32"), prim_u(64, "u64")
 I8, I16, I32, I64 = prim_i(8, "i8"), prim_i(16, "i16"), prim_i(32, "i32"), prim_i(64, "i64")
+PHANTOM = T("core::marker::PhantomData<u16>", "Ty::Phantom", "core::marker::PhantomData", lambda x: "View::Seq(vec![])")
 BOOL = T("bool", "Ty::Bool", "rng.bool()", lambda x: "View::Bool(*%s)" % x)
 CHAR = T("char", "Ty::Char", "vcore::gen::gen_char(rng)", lambda x: "View::Char(*%s)" % x)
 F32 = T("f32", "Ty::F32", "f32::from_bits(vcore::gen::gen_f32_bits(rng))", lambda x: "View::F32(%s.to_bits())" % x)
@@ -626,6 +627,16 @@ def special_types():
         fl = Field("value", 0, STRING if name != "EncOnlySkipLast" else U64)
         td.fields = [sk, fl] if first else [fl, sk]
         out.append(finish(td))
+    # PhantomData fields with an index are mandatory like any other (the empty array must be there)
+    for name, enc, shape in [("PhantomArr", "array", "named"), ("PhantomMap", "map", "named"), ("PhantomTup", None, "tuple")]:
+        td = TypeDef(name)
+        td.encoding, td.shape = enc, shape
+        td.fields = [Field("o", 0, opt(U8)), Field("ph", 1, PHANTOM), Field("q", 3, opt(STRING), tag=9)]
+        out.append(finish(td))
+    td = TypeDef("PhantomEnum")
+    td.kind = "enum"
+    td.variants = [("A", 0, "named", "map", None, [Field("o", 0, opt(U8)), Field("ph", 2, PHANTOM)]), ("B", 1, "tuple", None, 7, [Field("ph", 0, PHANTOM)]), ("C", 2, "unit", None, None, [])]
+    out.append(finish(td))
     # Tagged<N, T> as a field type, also around nil-capable types and in front of present fields
     td = TypeDef("TaggedTy")
     td.fields = [Field("a", 0, tagged(7, opt(U8))), Field("b", 1, U8), Field("c", 2, tagged(24, opt(STRING))), Field("d", 3, tagged(1000, U16), tag=5), Field("e", 5, opt(tagged(9, I32)))]
